@@ -57,6 +57,10 @@ func main() {
 		fmt.Println("now:", f(v))
 		return
 	}
+	if spec := os.Getenv("VERIF_COLD"); spec != "" {
+		coldChildMain(spec)
+		return
+	}
 	f, ok := props[os.Args[1]]
 	if !ok {
 		fmt.Println("unknown property", os.Args[1])
